@@ -212,12 +212,47 @@ pub fn enumerate_seqs(ctx: &Ctx, sub: &str, k: usize, f: impl Fn(&[u8]) -> (Judg
 }
 
 pub fn run_c04(ctx: &Ctx) {
-    ctx.set_rule("(a) proptest-generated wire trees from the RFC 8010 grammar (any group order, repeated/empty groups, every tag 0x10-0x4a with a syntactically valid body, mixed sets, multi-valued members, sets of collections, nesting to depth 6, invalid UTF-8, boundary lengths), encoded by the reference encoder, parsed by both parsers and compared with the harness's own interpretation; at up to 24 tag positions per tree a byte from {0x00,0x06-0x0f,0x4b-0xff} is substituted and must be rejected (each substitution = one evaluation). (b) every sequence of up to k tokens over a 16-token alphabet (quick k=4, thorough k=6): reference-accepted ones must be read as interpreted, a bad tag before the end tag must be rejected. Non-trivial = tree uses a form the library's encoder never emits (non-operation first group, repeated/empty group, out-of-band/unregistered tag, mixed set, multi-valued member, set of collections, nested collection, invalid UTF-8, boundary length) or a reference-accepted token sequence; distinct by hash.");
+    ctx.set_rule("(a) proptest-generated wire trees from the RFC 8010 grammar (any group order, repeated/empty groups, every tag 0x10-0x4a with a syntactically valid body, mixed sets, multi-valued members, sets of collections, nesting to depth 6, invalid UTF-8, boundary lengths), encoded by the reference encoder, parsed by both parsers and compared with the harness's own interpretation; at up to 24 tag positions per tree a byte from {0x00,0x06-0x0f,0x4b-0xff} is substituted and must be rejected (each substitution = one evaluation). (c) boundary counts: 6 deterministic shapes (wide set, set of collections, distinct attributes, members of one collection, groups, mixed-syntax set) at n in {255,256,257,1000,1023,1024,1025,2049,4095,4096,4097,8193,16385,65535,65536,65537}, both parsers. (b) every sequence of up to k tokens over a 16-token alphabet (quick k=4, thorough k=6): reference-accepted ones must be read as interpreted, a bad tag before the end tag must be rejected. Non-trivial = tree uses a form the library's encoder never emits (non-operation first group, repeated/empty group, out-of-band/unregistered tag, mixed set, multi-valued member, set of collections, nested collection, invalid UTF-8, boundary length) or a reference-accepted token sequence; distinct by hash.");
     ctx.assume("duplicate attribute/member names, non-empty out-of-band values and memberAttrName as an attribute-level value are not asserted (RFC forbids them / unspecified)");
     let (shards, per) = ctx.tier.pick((16, 4000), (16, 80000));
     run_prop(ctx, "wire-trees", shards, per, || (gen::w_msg(6), any::<u64>()).prop_map(|(w, salt)| C04Case { w, salt }), judge_c04, c04_json);
     let k = ctx.tier.pick(4, 6);
     enumerate_seqs(ctx, "token-seqs", k, judge_c04_seq, "ref-accepts");
+    // boundary counts: 6 shapes x 16 counts (255 ... 65537 values / collections / attributes / members / groups)
+    let jobs: Vec<(usize, usize)> = (0..vcore::bigshapes::SHAPES.len()).flat_map(|s| vcore::bigshapes::COUNTS.iter().map(move |n| (s, *n))).collect();
+    let jobs = std::sync::Mutex::new(jobs);
+    std::thread::scope(|sc| {
+        for _ in 0..16 {
+            sc.spawn(|| loop {
+                let Some((shape, n)) = jobs.lock().unwrap().pop() else { return };
+                ctx.eval();
+                ctx.nontrivial(hash64(&("bigshape", shape, n)));
+                ctx.label("boundary count");
+                if let Err(f) = judge_big_shape(shape, n) {
+                    ctx.failure("boundary-counts", &f, json!({"big_shape": shape, "n": n}));
+                }
+            });
+        }
+    });
+}
+
+pub fn judge_big_shape(shape: usize, n: usize) -> Judge {
+    let w = vcore::bigshapes::big_shape(shape, n);
+    let bytes = ref_encode(&w);
+    let expected = interpret(&w).ok_or_else(|| Fail::new("harness/uninterpretable", "big shape"))?;
+    let what = format!("{} with n={n} ({} bytes)", vcore::bigshapes::SHAPES[shape % vcore::bigshapes::SHAPES.len()], bytes.len());
+    for (which, out) in [("blocking", parse_blocking(&bytes)), ("async", parse_async(&bytes, Schedule::uniform(bytes.len(), 65536)))] {
+        match out {
+            Outcome::Ok { canon, payload } => {
+                canon_match(&expected, &canon).map_err(|e| Fail::new("C04/content/boundary-count", format!("{which} parser, {what}: {}", e.chars().take(400).collect::<String>())))?;
+                if payload != w.payload {
+                    return Err(Fail::new("C04/payload/boundary-count", format!("{which} parser, {what}: trailing bytes differ")));
+                }
+            }
+            o => return Err(Fail::new(format!("C04/rejected-well-formed/{}/boundary-count", o.class()), format!("{which} parser, {what}: {}", o.class()))),
+        }
+    }
+    Ok(())
 }
 
 fn replay_fuzz_diff(case: &Value, prefix: &str) -> Judge {
@@ -238,6 +273,9 @@ fn replay_fuzz_diff(case: &Value, prefix: &str) -> Judge {
 pub fn replay_c04(ctx: &Ctx, sub: &str, case: &Value) -> Judge {
     if sub.starts_with("fuzz-") {
         return replay_fuzz_diff(case, "C04/");
+    }
+    if let Some(s) = case.get("big_shape").and_then(|s| s.as_u64()) {
+        return judge_big_shape(s as usize, case.get("n").and_then(|n| n.as_u64()).unwrap_or(1) as usize);
     }
     if sub == "token-seqs" {
         let seq: Vec<u8> = case.get("tokens").and_then(|t| t.as_array()).ok_or_else(|| Fail::new("bad-replay", "tokens"))?.iter().map(|x| x.as_u64().unwrap_or(0) as u8).collect();
@@ -467,6 +505,27 @@ pub fn run_c05(ctx: &Ctx) {
                 });
             }
         });
+    }
+    // large inputs: attribute sections beyond 1 MiB and boundary counts (a limit or a buffer present in
+    // one twin only shows here)
+    let mut bigs: Vec<Vec<u8>> = vec![
+        ref_encode(&vcore::bigshapes::big_shape(0, 150_000)),
+        ref_encode(&vcore::bigshapes::big_shape(1, 40_000)),
+        ref_encode(&WMsg { version: 0x0101, code: 0, request_id: 5, groups: vec![WGroup { tag: 4, attrs: (0..24).map(|i| WAttr { name: format!("big{i}").into_bytes(), values: vec![WVal::Scalar { tag: 0x30, body: vec![(i as u8) | 0x40; 65535 - (i % 3)] }] }).collect() }], payload: vec![1, 2, 3] }),
+    ];
+    for n in [1025usize, 4097, 65537] {
+        bigs.push(ref_encode(&vcore::bigshapes::big_shape(5, n)));
+    }
+    for (i, b) in bigs.iter().enumerate() {
+        for sched in [Schedule::whole(), Schedule::uniform(b.len(), 65536), Schedule::uniform(b.len(), 4099).with_stalls(0x1357_9bdf + i as u64)] {
+            ctx.eval();
+            ctx.nontrivial(hash64(&("big", i, &sched.chunks.len())));
+            ctx.label("large input (> 1 MiB attribute section or boundary count)");
+            if let Err(f) = judge_c05_bytes(b, &sched, &Probe { ctx, counting: false }) {
+                ctx.failure("large-inputs", &f, json!({"bytes": hex(b), "schedule": sched.to_json()}));
+                break;
+            }
+        }
     }
     ctx.extra("exhaustive_subdomain", json!(format!("all 2^(n-1) compositions of {} short messages (lengths {:?})", msgs.len(), msgs.iter().map(|m| m.len()).collect::<Vec<_>>())));
 }
@@ -717,6 +776,11 @@ fn inside_field(fields: &[Field], k: usize) -> bool {
 }
 
 pub fn judge_c07(w: &WMsg, p: &Probe) -> Judge {
+    judge_c07_sampled(w, p, 600)
+}
+
+/// `max_even` = how many evenly spread offsets are taken when the message is longer than that
+pub fn judge_c07_sampled(w: &WMsg, p: &Probe, max_even: usize) -> Judge {
     let full = ref_encode(w);
     let l = full.len() - w.payload.len();
     let fields = field_map(&full);
@@ -725,8 +789,8 @@ pub fn judge_c07(w: &WMsg, p: &Probe) -> Judge {
         return Err(Fail::new(format!("C07/rejected-well-formed/{}", whole.class()), format!("the complete message does not parse: {}", whole.short())));
     }
     // bound quadratic cost: all offsets when L <= 600, else 600 offsets spread evenly (+ the last 40)
-    let offsets: Vec<usize> = if l <= 600 { (0..l).collect() } else { (0..l).filter(|k| k % (l / 600 + 1) == 0 || *k + 40 >= l).collect() };
-    if l > 600 {
+    let offsets: Vec<usize> = if l <= max_even { (0..l).collect() } else { (0..l).filter(|k| k % (l / max_even + 1) == 0 || *k + 40 >= l).collect() };
+    if l > max_even {
         p.label("long message: offsets sampled");
     }
     let full = Arc::new(full);
@@ -790,11 +854,27 @@ pub fn run_c07(ctx: &Ctx) {
     ctx.assume("a persistent Interrupted fault is excluded: std::io::Read::read_exact retries it forever by contract");
     let (shards, per) = ctx.tier.pick((16, 40), (16, 900));
     run_prop(ctx, "cuts-and-faults", shards, per, || prop_oneof![4 => gen::w_msg_small(), 1 => gen::w_msg(3)], judge_c07, wmsg_json);
+    // messages with more than 4096 elements (cut points and faults sampled: 600 evenly + the last 40)
+    std::thread::scope(|sc| {
+        for (shape, n) in [(0usize, 5000usize), (2, 4200), (3, 4500)] {
+            sc.spawn(move || {
+                let w = vcore::bigshapes::big_shape(shape, n);
+                ctx.label("message with > 4096 elements");
+                if let Err(f) = judge_c07_sampled(&w, &Probe { ctx, counting: true }, 120) {
+                    ctx.failure("many-elements", &f, json!({"big_shape": shape, "n": n}));
+                }
+            });
+        }
+    });
     ctx.set_exhaustive(false);
     ctx.extra("exhaustive_subdomain", json!("per message with L<=600: all cut points and all (offset, kind) faults"));
 }
 
 pub fn replay_c07(ctx: &Ctx, _sub: &str, case: &Value) -> Judge {
+    if let Some(s) = case.get("big_shape").and_then(|s| s.as_u64()) {
+        let w = vcore::bigshapes::big_shape(s as usize, case.get("n").and_then(|n| n.as_u64()).unwrap_or(1) as usize);
+        return judge_c07_sampled(&w, &Probe { ctx, counting: false }, 120);
+    }
     let w = wmsg_from_json(case).ok_or_else(|| Fail::new("bad-replay", "wire tree"))?;
     judge_c07(&w, &Probe { ctx, counting: false })
 }
